@@ -23,6 +23,7 @@ class HistoryManager:
         super().__init__(**kwargs)
         # this acts like a stack
         self._history = []
+        self._resetting = False
 
     def __call__(self, operation: Callable[[Any], Any]) -> None:
         """Add the corresponding operation to the history stack.
@@ -33,13 +34,21 @@ class HistoryManager:
             A function to be called at a later time.
 
         """
+        # Undo operations are often context-aware functions themselves. What they
+        # would record while the history is replayed must not be undone again.
+        if self._resetting:
+            return
         self._history.append(operation)
 
     def reset(self) -> None:
         """Trigger executions for all items in the stack in reverse order."""
-        while self._history:
-            entry = self._history.pop()
-            entry()
+        self._resetting = True
+        try:
+            while self._history:
+                entry = self._history.pop()
+                entry()
+        finally:
+            self._resetting = False
 
     def size(self) -> int:
         """Calculate number of operations on the stack."""
